@@ -655,6 +655,33 @@ func (c *FnCtx) loopHead(fr *frame, li *loopInfo, st *State, entryPhi map[*ssa.P
 		}
 		st.ep = ep
 		st.heap = map[string]string{}
+		// ghost fields survive calls without contract, but not the writes
+		// of contracts ("modifies ghost") inside the loop body
+		fullG := map[string]bool{}
+		for _, w := range writes {
+			if strings.HasPrefix(w.key, "G_") && (w.full || w.ref == "" || dependsOnFresh(w.ref, startCtr)) {
+				fullG[w.key] = true
+			}
+		}
+		for _, w := range writes {
+			if !strings.HasPrefix(w.key, "G_") || c.heapSort[w.key] == "" {
+				continue
+			}
+			ls := c.heapSort[w.key]
+			if fullG[w.key] {
+				if _, done := st.heap[w.key]; !done {
+					st.heap[w.key] = c.declare(w.key+"$loop", c.heapSortOf(w.key))
+				}
+				continue
+			}
+			// only the ghost cells of the objects the loop's contracts name change
+			h, ok := st.heap[w.key]
+			if !ok {
+				h = c.heapGet(prev, w.key, ls)
+			}
+			row := c.declare(w.key+"$row", "(Array Int "+ls+")")
+			c.heapSet(st, w.key, ls, sx("store", h, w.ref, row))
+		}
 		c.note("loop %d at %s: body calls a function without contract; whole heap havocked at the head", li.ord, c.posString(loopPos(li)))
 	} else {
 		byKey := map[string][]writeRec{}
